@@ -4,9 +4,14 @@ Oracle: the polynomial p(t) = sum_k c_k ((t - t0)/s)**k has rational coefficient
 points are floats (= rationals), so p(x_i) and p^(n)(x_i) are exact Fractions.  The samples
 handed to the library are fx_i = float(p(x_i)) (correctly rounded).  The tolerance at point i is
 
-        TOL_C16 * eps * sum_j |W_ij| * |fx_j|
+        TOL_C16 * eps * max_j |W_ij| * sum_j |fx_j|        (j over the stencil of point i)
 
-where W_i are the *exact* n-th derivative weights (integer arithmetic, nverif.oracle.stencil) of
+(fd_weights computes small weights by cancellation, so a weight carries an absolute error of a few eps
+times the *largest* weight of its stencil - the row-wise model that C15 verifies; the sharper factor
+sum_j |W_ij| |fx_j| of the design is reported as a statistic but is not a valid rounding bound: on the
+near-uniform grid x = [0, 0.99999973, 1.99999973, 2.99999973], p = 8t - 4t^2, n = m = 1 the centre weight is
+2.7e-7, carries an error 1e-16 and multiplies fx = 4: 5.9e5 eps sum|W||fx| for an absolute error 2.9e-16).
+W_i are the *exact* n-th derivative weights (integer arithmetic, nverif.oracle.stencil) of
 the stencil the docstring documents for point i: x[i-mm : i+mm+1] in the interior and the
 first / last 2*mm+2 points for the mm points next to each end (mm = n//2 + m).
 
@@ -29,11 +34,7 @@ from nverif.oracle.rational import lagrange_derivative_weights, poly_eval, poly_
 from nverif.oracle.stencil import common_scale, to_int, stencil_weights_int
 
 EPS = 2.0 ** -52
-# In units of eps * sum_j |W_ij| |fx_j|.  DESIGN proposed 1e4 (exploration worst 67); calibration on the
-# unchanged tree: worst 696 over 8 quick seeds (102 400 cases), 3005 in a thorough run (400 000 cases; the
-# tail is fd_weights' rounding on 12-16 point stencils whose gaps differ by up to 100x), so the constant is
-# 1e5 (>= 10x above the worst measured).  Mutants m65-m67 miss by factors >= 1e12.
-TOL_C16 = 1e5
+TOL_C16 = 1e4          # in units of eps * max_j|W_ij| * sum_j|fx_j|  (worst seen: evidence)
 
 
 def _pow2_near(v):
@@ -53,7 +54,7 @@ def grid_case(draw):
         L = size + 1
     else:
         L = draw(st.integers(size, 60))
-    kind = draw(st.sampled_from(['uniform', 'jitter', 'random', 'random']))
+    kind = draw(st.sampled_from(['uniform', 'jitter', 'near-uniform', 'random', 'random']))
     scale = 10.0 ** draw(st.floats(-2, 2))
     centre = draw(st.sampled_from([0.0, 1.0, -3.0, 50.0])) * scale
     if kind == 'uniform':
@@ -62,6 +63,10 @@ def grid_case(draw):
     elif kind == 'jitter':
         h = scale * draw(st.floats(0.05, 1.0))
         x = [centre + h * (i + draw(st.floats(-0.3, 0.3))) for i in range(L)]
+    elif kind == 'near-uniform':        # some exact weights are tiny compared with their neighbours
+        h = scale * draw(st.floats(0.05, 1.0))
+        amp = 10.0 ** draw(st.floats(-9, -3))
+        x = [centre + h * (i + amp * draw(st.floats(-1, 1))) for i in range(L)]
     else:       # gaps spread (log-uniformly) over two decades
         gaps = [scale * 10.0 ** draw(st.floats(-2, 0)) for _ in range(L - 1)]
         x = [centre]
@@ -106,8 +111,8 @@ class C16(Prop):
     id = 'C16'
     title = 'fd_derivative is exact on polynomials at every point of any grid'
     rule = ('Hypothesis draws n in 1..6, m in 1..4 (mm = n//2+m), a grid of 2mm+2..60 points '
-            '(minimal length, minimal+1, or any), uniform / jittered / random with gaps log-uniform over '
-            'two decades, increasing or decreasing, overall scale 1e-2..1e2 and offset up to 50 scales; '
+            '(minimal length, minimal+1, or any), uniform / jittered (30 %) / near-uniform (1e-9..1e-3) / '
+            'random with gaps log-uniform over two decades, increasing or decreasing, overall scale 1e-2..1e2 and offset up to 50 scales; '
             'a polynomial of degree 0..2mm (2mm+1 for the docstring boundary-stencil clause) with '
             'coefficients k/den, |k| <= 9, den in {1,2,4}, in the variable (t - x[j])/s, j drawn '
             'near either boundary, at the boundary/interior seam or anywhere, s = power of two near '
@@ -117,8 +122,9 @@ class C16(Prop):
     assumptions = ('python fractions / integer arithmetic is exact; float(Fraction) is correctly rounded',
                    'exact stencil weights by integer Lagrange expansion (cross-checked against the '
                    'Fraction expansion of nverif.oracle.rational on import and on sampled stencils)',
-                   'tolerance 1e5*eps*sum_j|W_ij||fx_j| with W the exact weights of the documented stencil '
-                   '(design value 1e4 raised after calibration: worst 3.0e3 in 400 000 cases)',
+                   'tolerance 1e4*eps*max_j|W_ij|*sum_j|fx_j| over the documented stencil of point i, W exact '
+                   '(row-wise rounding model of fd_weights, as in C15); the design factor sum_j|W_ij||fx_j| is '
+                   'not a rounding bound (tiny centre weights on near-uniform grids) and is only reported',
                    'clause boundary-stencil (degree 2mm+1, boundary points only) rests on the docstring '
                    'sentence "2*mm+2 points for each of the 2*mm boundary points", not on the property text')
     constants = {'TOL_C16': TOL_C16}
@@ -159,7 +165,7 @@ class C16(Prop):
         Dn = D ** n
         ffx = [Fraction(f) for f in fx]
         uniform = case['kind'] == 'uniform'
-        worst = {'boundary': 0.0, 'interior': 0.0}
+        worst = {'boundary': 0.0, 'interior': 0.0, 'sharp': 0.0}
         for i in range(L):
             if i < mm:
                 lo, hi, region = 0, size, 'left'
@@ -175,7 +181,8 @@ class C16(Prop):
             if i == case['j'] and hi - lo <= 8:      # sampled cross-check of the fast oracle
                 ref = lagrange_derivative_weights(x[lo:hi], x[i], n)[n]
                 assert [w * Dn for w in W] == ref, 'stencil oracle disagrees with rational oracle'
-            cond = sum(abs(w) * abs(f) for w, f in zip(W, ffx[lo:hi])) * Dn
+            sharp = sum(abs(w) * abs(f) for w, f in zip(W, ffx[lo:hi])) * Dn
+            cond = max(abs(w) for w in W) * sum(abs(f) for f in ffx[lo:hi]) * Dn
             err = abs(Fraction(float(du[i])) - exact[i])
             clause = 'boundary-stencil' if extra else 'exact'
             if cond == 0:
@@ -187,8 +194,10 @@ class C16(Prop):
             key = 'interior' if region == 'interior' else 'boundary'
             if ratio > worst[key]:
                 worst[key] = ratio
+            if sharp > 0:
+                worst['sharp'] = max(worst['sharp'], float(err / sharp) / EPS)
             if ratio > TOL_C16:
-                raise Violation(clause, 'du[%d] = %r, exact %r: error %.3g * eps * sum|W||fx| (%s point, '
+                raise Violation(clause, 'du[%d] = %r, exact %r: error %.3g * eps * max|W| sum|fx| (%s point, '
                                 'n=%d m=%d len=%d deg=%d %s %s)'
                                 % (i, float(du[i]), float(exact[i]), ratio, region, n, m, L, deg,
                                    case['kind'], case['direction']),
@@ -197,9 +206,10 @@ class C16(Prop):
                 ctx.record('log10(tol_at_x[j] * s^n)', np.log10(TOL_C16 * EPS * float(cond * sn)))
         summ = dict(n=n, m=m, L=L, deg=deg, kind=case['kind'], direction=case['direction'])
         suffix = ' (deg 2mm+1)' if extra else ''
-        ctx.track('boundary_err/(eps*sum|W fx|)' + suffix, worst['boundary'], summ)
+        ctx.track('boundary_err/(eps*max|W|*sum|fx|)' + suffix, worst['boundary'], summ)
         if not extra:
-            ctx.track('interior_err/(eps*sum|W fx|)', worst['interior'], summ)
+            ctx.track('interior_err/(eps*max|W|*sum|fx|)', worst['interior'], summ)
+        ctx.track('info: err/(eps*sum|W fx|) (design factor, not asserted)', worst['sharp'], summ)
         ctx.count('kind=%s' % case['kind'])
         ctx.count('direction=%s' % case['direction'])
         ctx.count('n=%d' % n)
